@@ -33,7 +33,7 @@ MAX_REPORTED = 60          # violations turned into replay files per run
 SIZES = {
     # exhaustive length, random strings, fragment strings, layout renderings per example / per generated
     # sequence, generated sequences, instruction-stream renderings per example
-    'quick':    dict(exh=3, rnd=9000, frag=5000, ex_render=2, gen_seqs=120, gen_render=3, instr=1, pairs=False),
+    'quick':    dict(exh=3, rnd=6000, frag=4000, ex_render=2, gen_seqs=120, gen_render=3, instr=1, pairs=False),
     'thorough': dict(exh=4, rnd=60000, frag=40000, ex_render=8, gen_seqs=1500, gen_render=4, instr=4, pairs=True),
 }
 
@@ -168,13 +168,16 @@ def run_trace(batch, digests, coverage, timeout, corrupt=None, workers=None):
     if ndig != len(digests):
         raise common.Machinery('TLC evaluated %s digest pairs, %d were written' % (ndig, len(digests)))
     dc = set(int(x) for x in re.findall(r'<<"HD", (\d+)>>', r.out))
+    # every verdict state has exactly one successor, itself; all other successors are new states
+    # (inputs are disjoint chains and the cursor only moves forward): generated - distinct = verdicts
+    if r.generated - r.distinct != n:
+        raise common.Machinery('verdicts reached: %d of %d cases' % (r.generated - r.distinct, n))
+    missing = []
     if coverage:
         missing = [a for a in ACTIONS if r.coverage.get(a, (0, 0))[1] == 0]
         for a in ('TStart', 'TVerdict'):          # every case was started and every case reached a verdict
             if a not in missing and r.coverage[a][1] != n:
                 raise common.Machinery('%s taken %d times for %d cases' % (a, r.coverage[a][1], n))
-    else:
-        missing = []
     return dict(result=r, mismatches=mism, dontcare=dc, instr=instr, missing=missing, n=n)
 
 
@@ -208,16 +211,66 @@ def violation_of(batch, case, what, ntok, spec, rec):
 
 
 # ------------------------------------------------------------------------------------------------ entry points
+def coverage_sample(batch, seed, per_family=220, max_len=400):
+    """a small batch (TLC's -coverage walks the whole data module once per action, so it only pays on a
+    small one) with cases of every family, to count how often each action of the machine is taken"""
+    rng = random.Random(seed + 1)
+    by = {}
+    for i, m in enumerate(batch.meta):
+        if len(m[1]) <= max_len and not m[5]:
+            by.setdefault(m[0], []).append(i)
+    small = R.Batch()
+    for fam in sorted(by):
+        for i in sorted(rng.sample(by[fam], min(per_family, len(by[fam])))):
+            m = batch.meta[i]
+            small.add(m[0], m[1], (m[2], m[3], m[4]))
+    return small
+
+
 def main(tier, seed, only=None, corrupt=None):
+    import threading
     t0 = time.time()
     hidc_api.load()
     batch, extra, digests, counts = build(tier, seed, only)
+    if not batch.cases:
+        raise common.Machinery('no cases')
     t_rec = time.time() - t0
-    budget = 80 if tier == 'quick' else 840
-    res = run_trace(batch, digests, coverage=True, timeout=max(60, int(budget * 3)), corrupt=corrupt)
+    tmo = 400 if tier == 'quick' else 1500
+
+    # three independent TLC runs side by side: the trace check, the action-coverage sample, the machine check
+    side = {}
+
+    def bg(name, fn):
+        def go():
+            try:
+                side[name] = ('ok', fn())
+            except BaseException as e:           # re-raised in the main thread
+                side[name] = ('exc', e)
+        th = threading.Thread(target=go)
+        th.start()
+        return th
+
+    threads = []
+    small = coverage_sample(batch, seed)
+    threads.append(bg('cov', lambda: run_trace(small, (), coverage=True, timeout=tmo, workers=4)))
+    if only is None:
+        exh = R.Batch()
+        for m in batch.meta:
+            if m[0] in ('exhaustive', 'ints', 'words'):
+                exh.add(m[0], m[1], (m[2], m[3], m[4]))
+        threads.append(bg('mc', lambda: run_machine_check(exh, timeout=tmo)))
+    res = run_trace(batch, digests, coverage=False, timeout=tmo, corrupt=corrupt)
+    for th in threads:
+        th.join()
+    for name, (st, val) in side.items():
+        if st == 'exc':
+            raise val
+    cov_run = side['cov'][1]
+    mc = side['mc'][1] if 'mc' in side else None
+
     runs = [(batch, res)]
     for b in extra:
-        runs.append((b, run_trace(b, (), coverage=False, timeout=900)))
+        runs.append((b, run_trace(b, (), coverage=False, timeout=tmo)))
 
     violations = []
     states = trans = ncases = ndc = 0
@@ -236,20 +289,13 @@ def main(tier, seed, only=None, corrupt=None):
                                                {'family': 'instructions', 'program': str(p[5]).split('#')[0]},
                                                {'before': p[6], 'after': p[7]}))
     nmism = sum(len(rr['mismatches']) for _, rr in runs)
-    if res['missing']:
-        if only is None:
-            raise common.Machinery('spec actions never taken: %s' % res['missing'])
+    if cov_run['missing'] and only is None:
+        raise common.Machinery('spec actions never taken: %s' % cov_run['missing'])
     compared = ncases - ndc
     if compared <= 0:
         raise common.Machinery('no case was compared')
 
-    mc = None
-    if only is None:
-        exh = R.Batch()
-        for i, m in enumerate(batch.meta):
-            if m[0] in ('exhaustive', 'ints', 'words'):
-                exh.add(m[0], m[1], (m[2], m[3], m[4]))
-        mc = run_machine_check(exh, timeout=600)
+    if mc is not None:
         if not mc.ok:
             if mc.violated:
                 violations.append(common.Violation(
@@ -259,7 +305,8 @@ def main(tier, seed, only=None, corrupt=None):
                 raise common.Machinery('TLC (Lexer.cfg) failed: %s\n%s' % (mc.errors[:3], mc.out[-1500:]))
         states += mc.distinct
         trans += mc.generated
-        wall += mc.wall
+    states += cov_run['result'].distinct
+    trans += cov_run['result'].generated
 
     rng = random.Random(seed)
     samples = []
@@ -280,9 +327,10 @@ def main(tier, seed, only=None, corrupt=None):
         'distinct_token_values': len(batch.vals),
         'rule': 'spec/Lexer.tla L1-L13, dontcare D1-D2; spec/LexerTrace.tla Judge, SameAsBase, '
                 'InstructionStreamsEqual; spec/Lexer.cfg TypeOK SpanExact ReaderAgrees CursorForward Terminates',
-        'actions': {a: res['result'].coverage.get(a, (0, 0))[1] for a in ACTIONS},
+        'actions_in_coverage_sample': {a: cov_run['result'].coverage.get(a, (0, 0))[1] for a in ACTIONS},
+        'coverage_sample_cases': cov_run['n'],
         'machine_check': None if mc is None else {'states': mc.distinct, 'ok': mc.ok, 'wall_s': round(mc.wall, 1)},
-        'record_wall_s': round(t_rec, 1), 'tlc_wall_s': round(wall, 1), 'tlc_runs': len(runs) + (1 if mc else 0),
+        'record_wall_s': round(t_rec, 1), 'tlc_wall_s': round(wall, 1), 'tlc_runs': len(runs) + len(side),
         'samples': samples,
     }
     assumptions = ['Python str code points = the characters of the source (SourceCode.from_string)',
